@@ -24,11 +24,14 @@ def enum_item(i):
     return f"e{i}"
 
 
+VERSION_LAYOUTS = ['2: ', '2 : ', '2:', '10 :\n ', '3 -- v3 -- : ', '2\t:\t']
+
+
 def shapes(tier):
     """(sig, text, info)"""
     out = []
     rmax = 2 if tier == 'quick' else 4
-    add_patterns = [[], ['p'], ['p', 'p'], ['g2'], ['p', 'g2'], ['g1', 'p'], ['g2', 'g1']]
+    add_patterns = [[], ['p'], ['p', 'p'], ['g2'], ['p', 'g2'], ['g1', 'p'], ['g2', 'g1'], ['g2v'], ['p', 'g1v']]
     if tier != 'quick':
         add_patterns += [['p', 'p', 'p'], ['g3'], ['g2', 'p', 'g1'], ['g1', 'g1', 'g1'], ['p', 'g3', 'p', 'p'], ['p', 'p', 'p', 'p', 'p', 'p'], ['g2v'], ['p', 'g1v', 'g2']]
     for cont, implied, nested in itertools.product(['SEQUENCE', 'SET', 'CHOICE', 'ENUMERATED'], [False, True], [False, True]):
@@ -64,7 +67,8 @@ def shapes(tier):
                                     ms.append(member(k))
                                     names.append(f"m{k}")
                                     k += 1
-                                ver = '2: ' if a.endswith('v') else ''
+                                # VersionNumber ::= number ":" - two lexical items, any layout between them (rotated over the shapes)
+                                ver = VERSION_LAYOUTS[len(out) % len(VERSION_LAYOUTS)] if a.endswith('v') else ''
                                 parts.append(f"[[ {ver}{', '.join(ms)} ]]")
                                 exp.append((names[0], ('group', names)))
                         body = ', '.join(parts) + (',' if trailing_comma else '')
@@ -148,6 +152,16 @@ def judge(items, info, chk, pc, nwarn):
                 elif [f.name for f in hoisted.fields] != kind[1]:
                     fails.append(('group-members', f"group struct has {[f.name for f in hoisted.fields]}, expected {kind[1]}"))
     return fails
+
+
+def on_reject(chk, sigp, text, info, ra):
+    """every shape is valid X.680; the one documented gap of the lexer is `[[ ]]` inside a SET (reported loudly as a syntax error,
+    DESIGN A.2 'outside').  Any other rejected shape means an extensible type is not generated at all."""
+    import re
+    if re.search(r'\bSET \{[^{}]*\[\[', text):
+        return
+    e = ra.get('error') or {}
+    chk.violation(sigp + ' rejected', f"valid extensible type rejected ({str(e.get('display'))[:80]}): {text}", {'kind': 'text', 'text': text})
 
 
 def jobs(tier, seed):
@@ -234,6 +248,7 @@ def run_job(prog, job, tier, seed):
             run_ir(prog, chk, gen, runner, job, tier)
         else:
             i = int(job[5:])
+            judge.on_reject = on_reject
             bridge.run_text_shapes(chk, gen, runner, shapes(tier)[i::NCHUNK], judge, stats)
     finally:
         runner.close()
